@@ -172,14 +172,40 @@ class World:
                     m.opt.add_option(o)
                 return m
 
+        class TestObservable(resource.ObservableResource):
+            """An `ObservableResource` (its own `_render_to_pipe`); `accepts` says whether
+            `add_observation` accepts the observation.  Every call of `add_observation` is
+            recorded: it tells which way the request took."""
+
+            def __init__(self, accepts):
+                super().__init__()
+                self.assemble = True
+                self.accepts = accepts
+
+            async def needs_blockwise_assembly(self, request):
+                return self.assemble
+
+            async def add_observation(self, request, serverobservation):
+                world.obs_calls.append(
+                    (int(request.code), request.opt.block1, request.opt.block2, bytes(request.payload)))
+                if self.accepts:
+                    serverobservation.accept(lambda: world.obs_cancelled.append(1))
+
+            render = TestResource.render
+
         self.Remote = Remote
         self.iface = Iface()
         self.seen = []
         self.seen_snap = []
+        self.obs_calls = []
+        self.obs_cancelled = []
         self.script_response = None
         asyncio.set_event_loop(None)
-        # resources are created inside the loop (TimeoutDict needs none at construction, but stay safe)
-        self.resources = [TestResource() for _ in range(n_resources)]
+        # resources 0 and 1 are plain, 2 is an observable resource that declines observations, 3 one
+        # that accepts them
+        makers = [TestResource, TestResource, lambda: TestObservable(False), lambda: TestObservable(True)]
+        self.resources = [makers[i % 4]() for i in range(n_resources)]
+        self.observable = [i % 4 >= 2 for i in range(n_resources)]
 
     def close(self):
         self.loop.cancel_all()
@@ -253,22 +279,35 @@ class World:
                 return Message(code=self.aiocoap.Code(160)), "escaped:" + type(e).__name__
 
         res, exc = await go()
+        self.last_entry = "-"
+        self.last_open = False
         return res, exc, self.seen_snap[n_before:]
 
     async def request(self, res_index, assemble, msg, script_response):
         """One request through the real `render_to_pipe` behind the real `error_to_message`.
-        Returns (response message, exception class name or None, list of handler snapshots)."""
+        Returns (response message, exception class name or None, list of handler snapshots).
+        `self.last_entry` afterwards: `-` for a plain resource, `o` / `p` for an observable one
+        (`add_observation` called or not); `self.last_open`: the first response was not marked as
+        the last one (an accepted observation; the rendering task is then cancelled)."""
         from aiocoap.pipe import Pipe, error_to_message
         res = self.resources[res_index]
         res.assemble = assemble
         self.script_response = script_response
         n_before = len(self.seen_snap)
+        n_obs = len(self.obs_calls)
         events = []
         raised = []
+        first = self.loop.create_future()
+
+        def on_event(e):
+            events.append(e)
+            if not first.done():
+                first.set_result(None)
+            return not e.is_last
 
         async def go():
             outer = Pipe(msg, LOG)
-            outer.on_event(lambda e: (events.append(e), not e.is_last)[1])
+            outer.on_event(on_event)
             inner = error_to_message(outer, LOG)
             try:
                 await res.render_to_pipe(inner)
@@ -276,9 +315,20 @@ class World:
                 raised.append(e)
                 inner.add_exception(e)
 
-        await go()
+        task = self.loop.create_task(go())
+        task.add_done_callback(lambda t: first.done() or first.set_result(None))
+        await first
+        if not task.done():
+            # an observation was set up: the pipe stays open for notifications; end it here
+            task.cancel()
+        await asyncio.gather(task, return_exceptions=True)
         msgs = [e for e in events if e.message is not None]
-        if len(msgs) != 1 or not msgs[0].is_last:
-            raise HarnessError(f"expected exactly one final response, got {events!r}")
+        if len(msgs) != 1:
+            raise HarnessError(f"expected exactly one response, got {events!r}")
+        n_calls = len(self.obs_calls) - n_obs
+        if n_calls > 1:
+            raise HarnessError("add_observation called more than once for one request")
+        self.last_entry = "-" if not self.observable[res_index] else ("o" if n_calls else "p")
+        self.last_open = not msgs[0].is_last
         exc = [x for x in raised if x is not None]
         return msgs[0].message, (type(exc[0]).__name__ if exc else None), self.seen_snap[n_before:]
